@@ -13,7 +13,12 @@ Record access := {
                                              that object out to its callers and its type has mutating methods
                          "pkg.Type.field"    a field of a shared receiver type (the store), one location per type
                          "<location>[*]"     the values stored in a synchronised container at <location>, when a
-                                             helper stores a value of a type with mutating methods there *)
+                                             helper stores a value of a type with mutating methods there
+                         "pkg.F$v"           variable v of function F, captured by a function literal that F stores in
+                                             a struct field (the literal outlives the call: all its invocations share v)
+                         "<location>[spare capacity]"  the part of the array behind the slice at <location> (a field,
+                                             a package-level or a captured variable) beyond its length: written by an
+                                             append on that slice whose result does not go back to it *)
   a_kind : akind;
   a_sync : bool;      (* sync.Pool / sync.Once / atomic / mutex guarded *)
   a_via : string      (* function in which the access occurs (diagnostics) *)
